@@ -182,8 +182,10 @@ func TestC16Damage(t *testing.T) {
 			}
 			// the Persistence may also refuse to delete what AdoptSession finds unusable
 			var adoptFaults []byte
+			adoptFailNth := 0
 			if rapid.IntRange(0, 7).Draw(rt, "deleteFailsDuringAdoption") == 0 {
 				adoptFaults = []byte{'D'}
+				adoptFailNth = rapid.IntRange(1, 4).Draw(rt, "whichDelete")
 			}
 			// stray entries as a directory can hold them (FileSystem behind the
 			// double): a second spelling of a record's name, a sub-directory with
@@ -196,7 +198,7 @@ func TestC16Damage(t *testing.T) {
 				type strayT struct{ kind, name string }
 				var list []strayT
 				for i, ns := 0, rapid.IntRange(1, 3).Draw(rt, "nDirectoryStrays"); i < ns; i++ {
-					kind := rapid.SampledFrom([]string{"uppercase-twin", "directory", "spool-leftover", "foreign-file", "short-name", "long-name"}).Draw(rt, "strayKind")
+					kind := rapid.SampledFrom([]string{"uppercase-twin", "directory", "spool-leftover", "foreign-file", "short-name", "long-name", "link-to-directory", "dangling-link"}).Draw(rt, "strayKind")
 					name := ""
 					switch kind {
 					case "uppercase-twin":
@@ -210,6 +212,9 @@ func TestC16Damage(t *testing.T) {
 						}
 					case "directory":
 						name = fmt.Sprintf("%05x", rapid.SampledFrom([]int{0x0abcd, 0x00007, 0x1ffff, 0x0fff0}).Draw(rt, "dirName")) // (not where a publish of this history will store)
+					case "link-to-directory", "dangling-link":
+						// neither a regular file nor a directory, named like a key
+						name = fmt.Sprintf("%05x", rapid.SampledFrom([]int{0x0c0de, 0x0abce, 0x1fffe, 0x0fff1}).Draw(rt, "linkName"))
 					case "spool-leftover":
 						name = fmt.Sprintf("%05x.spool", rapid.SampledFrom([]int{0x8000, 0xc000, 0x8001, 0x10001}).Draw(rt, "spoolKey"))
 					case "foreign-file":
@@ -230,6 +235,10 @@ func TestC16Damage(t *testing.T) {
 						}
 						if st.kind == "directory" {
 							os.Mkdir(p, 0o700)
+						} else if st.kind == "link-to-directory" {
+							os.Symlink(dir, p)
+						} else if st.kind == "dangling-link" {
+							os.Symlink(filepath.Join(dir, "no-such-entry"), p)
 						} else {
 							os.WriteFile(p, []byte("stray entry, not a record"), 0o600)
 						}
@@ -244,7 +253,7 @@ func TestC16Damage(t *testing.T) {
 			if len(adoptFaults) == 0 && rapid.IntRange(0, 4).Draw(rt, "misconfiguredRestartFirst") == 0 {
 				preLimits = 1
 			}
-			n, _ := h0.restart(restartOpts{K: k, Late: rapid.Bool().Draw(rt, "late"), Config: cfg, AdoptFailNext: adoptFaults, StoreFlavour: flavour, FSMutate: fsMutate, PreAdoptLimits: preLimits, Mutate: func(store map[uint][]byte) {
+			n, _ := h0.restart(restartOpts{K: k, Late: rapid.Bool().Draw(rt, "late"), Config: cfg, AdoptFailNext: adoptFaults, AdoptFailNth: adoptFailNth, StoreFlavour: flavour, FSMutate: fsMutate, PreAdoptLimits: preLimits, Mutate: func(store map[uint][]byte) {
 				for _, d := range dmg {
 					v := store[d.Key]
 					switch d.Kind {
@@ -299,6 +308,38 @@ func TestC16Damage(t *testing.T) {
 				// (an error of the Persistence itself is not damage: what becomes
 				// of the session then is not judged here, a panic is)
 				h0.labels["delete-fails-during-adoption"] = true
+				// … except for this: one Delete failed once. Whatever else
+				// AdoptSession decided to leave out of the session must be gone;
+				// a record which stays behind without being part of the session
+				// is taken for session content by the next adoption.
+				if n.Fatal == nil && n.Client != nil {
+					after := n.Store.Content()
+					failedDelete := map[uint]bool{}
+					for _, op := range n.Store.OpsCopy() {
+						if op.Kind == 'D' && op.Err != nil {
+							failedDelete[op.Key] = true
+						}
+					}
+					n.Act("appStep")
+					n.appStep("first connect of the adopted client")
+					if last, ok := n.App.Last(); !(ok && !n.App.InCall() && last.Err != nil) && n.ReaderWaiting() {
+						if cs := n.AllConns(); len(cs) == 1 {
+							packets, _, _ := refmqtt.DecodeAll(cs[0].OutCopy())
+							sent := map[uint]bool{}
+							for _, p := range packets {
+								if p.Type == refmqtt.PUBLISH || p.Type == refmqtt.PUBREL {
+									sent[uint(p.ID)] = true
+								}
+							}
+							for key := range after {
+								if key >= 0x8000 && key <= 0xffff && !sent[key] && !failedDelete[key] {
+									n.Failf("record %#x stays in the Persistence after AdoptSession (one Delete, of %v, failed), yet the adopted client does not resume it: the next adoption takes it for session content; warnings: %v", key, keysOf(failedDelete), n.Warn)
+								}
+							}
+							n.label("leftovers-judged-after-a-failed-delete")
+						}
+					}
+				}
 				n.Shutdown(5 * time.Second)
 				continue
 			}
@@ -603,4 +644,13 @@ func TestC16KnownF31(t *testing.T) {
 		}
 	})
 	stats.For("C16").KnownFinding("F31", reproduced)
+}
+
+func keysOf(m map[uint]bool) []string {
+	var l []string
+	for k := range m {
+		l = append(l, fmt.Sprintf("%#x", k))
+	}
+	sort.Strings(l)
+	return l
 }
